@@ -2,6 +2,7 @@ package main
 
 import (
 	"context"
+	"encoding/json"
 	"fmt"
 	"os"
 	"path/filepath"
@@ -78,6 +79,11 @@ func genMRouted(t *rapid.T, mids []string, depth int, label string, counter *int
 	m := map[string]interface{}{"n": float64(*counter), "depth": float64(depth)}
 	if to, have := genMTo(t, mids, label); have {
 		m["to"] = to
+	}
+	if to, _ := m["to"].(string); to != "timers" && rapid.IntRange(0, 3).Draw(t, label+".bait") == 0 {
+		// something the timers service would act on, had it been shown
+		// this message
+		m["makeTimer"] = map[string]interface{}{"id": fmt.Sprintf("bait%d", *counter), "in": "1h", "message": map[string]interface{}{"to": "nobody"}}
 	}
 	if depth < 2 {
 		if fan := rapid.IntRange(0, 2).Draw(t, label+".fan"); fan > 0 {
@@ -304,6 +310,10 @@ func checkMRoute(c MRouteCase) (v ev.Verdict) {
 	}
 	if len(s.wsClientC) != wantWS {
 		v.Failf("%d messages were addressed to the websocket service, it received %d", wantWS, len(s.wsClientC))
+		return
+	}
+	if js, err := json.Marshal(s.timers); err == nil && strings.Contains(string(js), "bait") {
+		v.Failf("the timers service acted on a message that was not addressed to it: %s", js)
 		return
 	}
 	if faulted > 0 {
